@@ -1,7 +1,9 @@
 package p_xbinary
 
 import (
+	"bytes"
 	"fmt"
+	"runtime/debug"
 	"syscall"
 	"unsafe"
 
@@ -17,6 +19,9 @@ import (
 type Case15Z struct {
 	K string `json:"k"` // KBytes or KString
 	L int    `json:"l"`
+	// Copy: the stream is also decoded with newBuf=true - the one step that does copy the body (the process then holds
+	// L bytes of resident memory): (size, L bytes equal to the body, nil), outside the source's memory.
+	Copy bool `json:"copy,omitempty"`
 }
 
 // Hash identifies the case.
@@ -29,6 +34,7 @@ type Info15Z struct {
 	Calls  int // Write calls the sink saw
 	// NoArena: the address space for the case could not be had - nothing was decided
 	NoArena bool
+	Copied  bool // decoded with newBuf=true as well
 }
 
 // NonTrivial: the length is at a prefix boundary or the body is larger than 1 GiB.
@@ -49,6 +55,12 @@ func (i Info15Z) Classes() []string {
 	}
 	if near7(uint64(i.L)) {
 		c = append(c, "near_7bit_group_boundary")
+	}
+	if i.Copied {
+		c = append(c, "huge_body_decoded_with_newBuf_true")
+		if i.L > 1<<31-1 {
+			c = append(c, "huge_body_gt_MaxInt32_decoded_with_newBuf_true")
+		}
 	}
 	return c
 }
@@ -148,6 +160,7 @@ func Run15Z(c Case15Z) (info Info15Z, v *vstat.Violation) {
 		marshal func(dst []byte) (int, error)
 		write   func(ow *xbinary.ObjectsWriter) (int, error)
 		decode  func(src []byte) (n int, ptr *byte, ln int, err error)
+		dup     func(src []byte) (n int, r []byte, err error) // newBuf=true; r views the result
 	)
 	if c.K == KBytes {
 		name = "bytes"
@@ -158,6 +171,7 @@ func Run15Z(c Case15Z) (info Info15Z, v *vstat.Violation) {
 			n, r, err := xbinary.UnmarshalBytes(src, false)
 			return n, unsafe.SliceData(r), len(r), err
 		}
+		dup = func(src []byte) (int, []byte, error) { return xbinary.UnmarshalBytes(src, true) }
 	} else {
 		name = "string"
 		s := unsafe.String(unsafe.SliceData(val), L)
@@ -167,6 +181,10 @@ func Run15Z(c Case15Z) (info Info15Z, v *vstat.Violation) {
 		decode = func(src []byte) (int, *byte, int, error) {
 			n, r, err := xbinary.UnmarshalString(src, false)
 			return n, unsafe.StringData(r), len(r), err
+		}
+		dup = func(src []byte) (int, []byte, error) {
+			n, r, err := xbinary.UnmarshalString(src, true)
+			return n, strView(r), err
 		}
 	}
 	where := fmt.Sprintf("%s of %d zero bytes", name, L)
@@ -218,6 +236,31 @@ func Run15Z(c Case15Z) (info Info15Z, v *vstat.Violation) {
 	}
 	if L > 0 && ptr != &src[p] {
 		return info, vstat.V("xbin:nocopy-not-aliasing", "%s: the result does not start at source[%d] (newBuf=false must return the input range)", where, p)
+	}
+	if !c.Copy {
+		return info, nil
+	}
+	// the same stream decoded with newBuf=true
+	info.Copied = true
+	defer debug.FreeOSMemory() // the copy is garbage when the case is over: hand its memory back
+	dn, r, err := dup(src)
+	if err != nil {
+		return info, vstat.V("xbin:roundtrip-error", "%s: Unmarshal(newBuf=true) of the writer's prefix %x followed by the body failed (n=%d): %v", where, sink.head[:p], dn, err)
+	}
+	if dn != size {
+		return info, vstat.V("xbin:roundtrip-consumed", "%s: Unmarshal(newBuf=true) consumed %d bytes, the writer wrote %d", where, dn, size)
+	}
+	if len(r) != L {
+		return info, vstat.V("xbin:roundtrip-value", "%s: Unmarshal(newBuf=true) returned a value of %d bytes", where, len(r))
+	}
+	if L > 0 && inside(uintptr(unsafe.Pointer(unsafe.SliceData(r))), cap(r), src) {
+		return info, vstat.V("xbin:newbuf-aliases-source", "%s: the result of newBuf=true (len %d, cap %d) is backed by the source buffer", where, len(r), cap(r))
+	}
+	for lo := 0; lo < L; lo += 1 << 24 {
+		hi := min(lo+1<<24, L)
+		if !bytes.Equal(r[lo:hi], src[p+lo:p+hi]) {
+			return info, vstat.V("xbin:roundtrip-value", "%s: Unmarshal(newBuf=true) returned a value that differs from the body within [%d, %d)", where, lo, hi)
+		}
 	}
 	return info, nil
 }
